@@ -1134,9 +1134,18 @@ def selftest():
                             [D.T("("), D.T("int")], [D.T(";"), D.T("void"), D.T("b", "IDENT"), D.T("("), D.T(")"), D.T(";"), D.T("}")],
                             rng, "spaces", "selftest-rec")
     rec["sid"] = "rec"
-    events = C.run_harness([base, rec], wdir)
+    ctoks = [D.T("package"), D.T("p", "IDENT"), D.T(";"), D.T("import"), D.T("p", "IDENT"), D.T("."), D.T("IBinder", "IDENT"), D.T(";"),
+             D.T("interface"), D.T("I", "IDENT"), D.T("{"),
+             D.T("void"), D.T("f", "IDENT"), D.T("("), D.T(")"), D.T("="), D.T("0016777216", "INTEGER"), D.T(";"),
+             D.T("IBinder", "IDENT"), D.T("g", "IDENT"), D.T("("), D.T(")"), D.T("="), D.T("5", "INTEGER"), D.T(";"), D.T("}")]
+    codes = piece_scenario([("a", D.layout(ctoks, rng, mode="spaces", unicode_ws=False, nl="\n")),
+                            ("b", D.layout([D.T("package"), D.T("p", "IDENT"), D.T(";"), D.T("parcelable"), D.T("IBinder", "IDENT"),
+                                            D.T("{"), D.T("}")], rng, mode="spaces", unicode_ws=False, nl="\n"))], "selftest-codes")
+    codes["sid"] = "codes"
+    events = C.run_harness([base, rec, codes], wdir)
     ev_base = [e for e in events if e["sid"] == "base"]
     ev_rec = [e for e in events if e["sid"] == "rec"]
+    ev_codes = [e for e in events if e["sid"] == "codes"]
 
     def find(evs, kind, nth=0):
         return [i for i, e in enumerate(evs) if e["ev"] == kind][nth]
@@ -1265,10 +1274,29 @@ def selftest():
         d["r"] = [0, 7, 1, 1, 1, 8]
     corr("syntax Error outside the malformed member", "C14", "rec", c_outside)
 
-    trace = list(ev_base) + list(ev_rec)
+    def c_code(evs):
+        e = evs[find(evs, "validate")]
+        m = next(n for n in obs_a(e)["nodes"] if n["c"] == "method" and n["n"] == "f")
+        m["a"] = ""
+    corr("a method's explicit code lost after validation", "C09", "codes", c_code)
+
+    def c_unused(evs):
+        # the import of the project's own p.IBinder is used by g's return type; a reference classified as the built-in
+        # (what a 'built-ins first' resolver reports) together with the matching 'unused import' Warning must not pass
+        e = evs[find(evs, "validate")]
+        o = obs_a(e)
+        imp = next(n for n in o["nodes"] if n["c"] == "imp")
+        t = next(n for n in o["nodes"] if n["c"] == "type" and n["n"] == "IBinder")
+        t["rk"] = ["android", "IBinder"]
+        o["diags"].append({"sev": "W", "r": imp["sym"], "tag": "unused_import", "msg": "Unused import `p.IBinder`", "ctx": "", "hint": "",
+                           "an": [], "rel": [], "stage": "valid", "words": [], "quoted": [], "synt": False})
+        o["diags"].sort(key=lambda d: (d["r"][2], d["r"][3]))
+    corr("reference classified as a built-in although the file imports an item of that name, with the matching 'unused' Warning", "C06", "codes", c_unused)
+
+    trace = list(ev_base) + list(ev_rec) + list(ev_codes)
     wanted = []
     for k, (name, prop, which, fn) in enumerate(corruptions):
-        evs = copy.deepcopy(ev_base if which == "base" else ev_rec)
+        evs = copy.deepcopy({"base": ev_base, "rec": ev_rec, "codes": ev_codes}[which])
         sid = f"corrupt-{k}"
         for e in evs:
             e["sid"] = sid
@@ -1277,7 +1305,7 @@ def selftest():
         wanted.append((sid, prop, name))
     fails, _ = C.validate_trace(trace, wdir, chunk_events=10 ** 9)
     shutil.rmtree(wdir, ignore_errors=True)
-    clean = [f for f in fails if f["sid"] in ("base", "rec") and f["prop"] != "C20"]
+    clean = [f for f in fails if f["sid"] in ("base", "rec", "codes") and f["prop"] != "C20"]
     rc = 0
     if clean:
         print("selftest: the uncorrupted trace was NOT accepted:", clean[:3])
@@ -1289,6 +1317,7 @@ def selftest():
         hit = [f for f in hit if not match_known(prop, f, None, bysid.get(sid, []))]
         print(f"  {'rejected' if hit else 'ACCEPTED (bad)'}  [{prop}] {name}" + (f" -> {hit[0]['why']}" if hit else ""))
         if not hit:
+            print("    FAIL lines of that scenario:", sorted({(f["prop"], f["why"]) for f in fails if f["sid"] == sid}))
             rc = 2
     # the hang / abort plumbing: a call that never returns or kills the process is an event, and later scenarios still run
     os.environ["VERIF_OP_TIMEOUT"] = "2"
